@@ -8,7 +8,14 @@
 // guid.type.size[.ui] in hex ("-" = no volume at all); ui = "n" gives the file
 // a UI section with an ordinary name, ui = <c><hex> one whose name is the
 // string of GUID <hex> in upper (u), lower (l) or mixed (m) case, i.e. the name
-// the regex predicate of the `remove` command would match.  The boot
+// the regex predicate of the `remove` command would match; <vols> after a file
+// are the volumes nested in it.  The root handed to the visitors is a
+// BIOSRegion holding the volumes, unless the tree has a prefix: "V!" + one
+// volume: the root is that *uefi.FirmwareVolume itself, built in code; "X!" +
+// one volume: the volume is serialised (harness/uefigen), read back with
+// uefi.Parse and the volume node of the result is the root (sizes are then the
+// real ones; property oracles only); "F!" + one file / "S!" + volumes: the
+// root is a File / a Section holding the volumes (Remove only).  The boot
 // test is a scripted DXECleaner.Test; it records the tree it is shown.  The
 // cleaner's log writer is used as an observation point: "Trying to remove
 // <GUID>" is printed just before each removal, i.e. after the previous undo.
@@ -25,6 +32,7 @@ import (
 	"github.com/linuxboot/fiano/pkg/uefi"
 	"github.com/linuxboot/fiano/pkg/visitors"
 	. "verifharness/common"
+	"verifharness/uefigen"
 )
 
 // ---------- trees ----------
@@ -179,20 +187,110 @@ func (p *parser) file() *uefi.File {
 
 func buildTree(s string) *tree {
 	t := &tree{}
-	br := &uefi.BIOSRegion{}
+	kind := byte(0)
+	if len(s) >= 2 && s[1] == '!' {
+		kind, s = s[0], s[2:]
+	}
+	var fvs []*uefi.FirmwareVolume
 	if s != "-" {
 		p := &parser{s: s}
-		t.fvs = p.vols()
+		fvs = p.vols()
 		if p.pos != len(s) {
 			panic("bad tree in case file: " + s)
 		}
-		for _, fv := range t.fvs {
+	}
+	switch kind {
+	case 0:
+		br := &uefi.BIOSRegion{}
+		for _, fv := range fvs {
 			br.Elements = append(br.Elements, uefi.MakeTyped(fv))
 		}
+		t.root, t.fvs = br, fvs
+	case 'V':
+		t.root, t.fvs = fvs[0], fvs[:1]
+	case 'X':
+		fv := parsedVolume(fvs[0])
+		t.root, t.fvs = fv, []*uefi.FirmwareVolume{fv}
+	case 'F':
+		f := fvs[0].Files[0]
+		t.root, t.fvs = f, nestedVols(f)
+	case 'S':
+		sec := &uefi.Section{}
+		sec.Header.Type = uefi.SectionTypeGUIDDefined
+		for _, fv := range fvs {
+			sec.Encapsulated = append(sec.Encapsulated, uefi.MakeTyped(fv))
+		}
+		t.root, t.fvs = sec, fvs
+	default:
+		panic("bad tree kind in case file")
 	}
-	t.root = br
 	t.orig = t.snap()
 	return t
+}
+
+// specOf turns a volume built in code into the reference grammar's description
+// (sizes come out of the serialiser, the ones in the case are ignored).
+func specOf(fv *uefi.FirmwareVolume, depth int) *uefigen.Vol {
+	v := &uefigen.Vol{FSGUID: uefigen.FFS2, Attrs: 0x800 | 0x4FEFF, Revision: 2, BlockSize: 64}
+	if depth > 0 {
+		v.BlockSize = 16
+	}
+	for _, f := range fv.Files {
+		sf := &uefigen.File{GUID: f.Header.GUID, Type: byte(f.Header.Type), State: 0xF8, Secs: []*uefigen.Sec{}}
+		for _, sec := range f.Sections {
+			if sec.Header.Type == uefi.SectionTypeUserInterface {
+				var b []byte
+				for _, c := range sec.Name {
+					b = append(b, byte(c), 0)
+				}
+				sf.Secs = append(sf.Secs, &uefigen.Sec{Type: 0x15, Body: append(b, 0, 0)})
+			}
+		}
+		for _, k := range nestedVols(f) {
+			sf.Secs = append(sf.Secs, &uefigen.Sec{Type: 0x17, Vol: specOf(k, depth+1)})
+		}
+		sf.Secs = append(sf.Secs, &uefigen.Sec{Type: 0x19, Body: []byte{1, 2, 3, 4}})
+		v.Files = append(v.Files, sf)
+	}
+	return v
+}
+
+func shape(s []*vnode) string {
+	vols := make([]string, len(s))
+	for i, v := range s {
+		fs := make([]string, len(v.files))
+		for j, n := range v.files {
+			fs[j] = gidHex(n.f.Header.GUID) + "." + N(uint64(n.f.Header.Type))
+			if len(n.kids) > 0 {
+				fs[j] += "<" + shape(n.kids) + ">"
+			}
+		}
+		vols[i] = strings.Join(fs, ",")
+	}
+	return strings.Join(vols, "/")
+}
+
+// parsedVolume serialises the volume, parses the bytes with uefi.Parse and
+// returns the volume node of the parsed tree.
+func parsedVolume(fv *uefi.FirmwareVolume) *uefi.FirmwareVolume {
+	img, _ := uefigen.EmitVol(specOf(fv, 0))
+	uefi.Attributes = uefi.ROMAttributes{ErasePolarity: 0xF0}
+	root, err := uefi.Parse(img)
+	if err != nil {
+		panic("harness: uefi.Parse of the generated volume: " + err.Error())
+	}
+	br, ok := root.(*uefi.BIOSRegion)
+	if !ok || len(br.Elements) != 1 {
+		panic("harness: uefi.Parse did not give a region with one element")
+	}
+	got, ok := br.Elements[0].Value.(*uefi.FirmwareVolume)
+	if !ok {
+		panic("harness: parsed element is not a volume")
+	}
+	if a, b := shape([]*vnode{snapVol(got)}), shape([]*vnode{snapVol(fv)}); a != b {
+		panic("harness: parsed tree " + a + " differs from the described tree " + b)
+	}
+	return got
 }
 
 // the volumes nested in a file, in section order
@@ -838,6 +936,25 @@ func randImage(r *Rng) (string, []int) {
 	return strings.Join(vols, "/"), gs
 }
 
+// the tree string with everything inside <...> removed
+func topLevel(img string) string {
+	var b []byte
+	d := 0
+	for i := 0; i < len(img); i++ {
+		switch img[i] {
+		case '<':
+			d++
+		case '>':
+			d--
+		default:
+			if d == 0 {
+				b = append(b, img[i])
+			}
+		}
+	}
+	return string(b)
+}
+
 func randScript(r *Rng) string {
 	n := r.Intn(14)
 	if n == 0 {
@@ -966,6 +1083,38 @@ func gen(r *Rng, tier string, emit Emit) {
 			}
 		}
 	}
+	// 1d. other roots: the tree handed to the cleaner / to Remove is the volume
+	// itself (built in code: V!, or the volume node of uefi.Parse's result: X!),
+	// and for Remove also a file or a section
+	sc1d := scripts(3)
+	var roots []string
+	for _, v := range vs {
+		if v != "" {
+			roots = append(roots, v)
+		}
+	}
+	roots = append(roots, "1.7.20<2.7.20,3.7.20>,4.7.20", "8.2.20<1.7.20,2.7.20>,3.7.20",
+		"1.7.20<3.7.20,2.7.20>,3.7.20", "1.7.20,2.2.20.u1<1.7.20>,3.6.20")
+	for _, v := range roots {
+		for _, s := range sc1d {
+			all("ff", "0", "V!"+v, s)
+			emit("P", "p_final", "ff", "0", "X!"+v, s)
+			emit("P", "p_accepted", "ff", "0", "X!"+v, s)
+			emit("P", "p_undone", "ff", "0", "X!"+v, s)
+		}
+		for _, req := range []string{"-", "1", "2", "1,3", "8"} {
+			emit("C", "cleanmono", "ff", "0", "V!"+v, req)
+			emit("P", "p_mono", "ff", "0", "V!"+v, req)
+			emit("P", "p_mono", "ff", "0", "X!"+v, req)
+		}
+		for _, sel := range []string{"g1", "g2", "r1", "p0"} {
+			for _, k := range []string{"0", "1", "2"} {
+				emit("C", "remove", "ff", "0", sel, "V!"+v, k)
+				emit("C", "remove", "ff", "1", sel, "S!"+v+"/"+v, k)
+				emit("C", "remove", "ff", "0", sel, "F!1.7.20<"+v+"/2.7.20>", k)
+			}
+		}
+	}
 	if thorough {
 		vs3 := volumes(3, 2)
 		sc3 := scripts(5)
@@ -997,6 +1146,9 @@ func gen(r *Rng, tier string, emit Emit) {
 		img, used := randImage(rr)
 		pol := N(uint64(rr.Pick(0xff, 0xff, 0xff, 0xff, 0, 0xf0)))
 		pc := N(uint64(rr.Pick(0, 0, 0, 1, 2, 3)))
+		if rr.Chance(1, 5) && !strings.Contains(topLevel(img), "/") { // the volume itself as root
+			img = "V!" + img
+		}
 		all(pol, pc, img, randScript(rr))
 		req := randReq(rr, used)
 		emit("C", "cleanmono", pol, pc, img, req)
